@@ -230,17 +230,23 @@ impl Expression for DelFn {
             .and_then(|compact| compact.as_boolean());
 
         // Deleting (part of) a local variable changes its value: whatever constant the compiler
-        // tracked for it is no longer valid.
+        // tracked for it is no longer valid, and its type no longer has the deleted path.
         if let Some(ident) = self.query.variable_ident()
             && let Some(details) = state.local.variable(ident).cloned()
         {
-            state.local.insert_variable(
-                ident.clone(),
+            let removed = |compact: bool| {
+                let mut type_def = details.type_def.clone();
+                type_def.remove(self.query.path(), compact);
                 type_def::Details {
-                    type_def: details.type_def,
+                    type_def,
                     value: None,
-                },
-            );
+                }
+            };
+            let details = match compact {
+                Some(compact) => removed(compact),
+                None => removed(false).merge(removed(true)),
+            };
+            state.local.insert_variable(ident.clone(), details);
         }
 
         if let Some(compact) = compact {
